@@ -38,13 +38,67 @@ def _address_taken(ctx) -> set[str]:
     return out
 
 
+def _param_targets(ctx, fi: FuncInfo, pname: str, taken: set, depth=0) -> Optional[set]:
+    """tucan functions that can be bound to parameter `pname` of fi, from the arguments at fi's call sites
+    (builtins, classes, library functions and lambdas contribute nothing); None when this cannot be told"""
+    cg = ctx.cg
+    if depth > 4 or fi.fq in taken:
+        return None             # fi itself is passed around: it may be called with anything
+    callers = cg.callers_of(fi.fq)
+    if not callers:
+        return None
+    names = [a.arg for a in fi.node.args.posonlyargs + fi.node.args.args]
+    if pname not in names:
+        return None
+    idx = names.index(pname) - (1 if fi.cls is not None else 0)
+    out: set = set()
+
+    def classify(caller: FuncInfo, arg) -> Optional[set]:
+        if isinstance(arg, ast.Lambda):
+            return set()
+        if isinstance(arg, ast.Constant):
+            return set()
+        if isinstance(arg, ast.Call) and norm(arg.func).split(".")[-1] == "partial" and arg.args:
+            return classify(caller, arg.args[0])
+        if isinstance(arg, ast.Name) and arg.id in params_of(caller.node):
+            return _param_targets(ctx, caller, arg.id, taken, depth + 1)
+        if isinstance(arg, (ast.Name, ast.Attribute)):
+            r = ctx.repo.resolve_dotted(caller.module, arg)
+            if r is None:
+                return None
+            return {r[1].fq} if r[0] == "func" else set() if r[0] in ("builtin", "ext", "class") else None
+        return None
+    for cs in callers:
+        arg = cs.node.args[idx] if 0 <= idx < len(cs.node.args) and not any(isinstance(a, ast.Starred) for a in cs.node.args) else None
+        for k in cs.node.keywords:
+            if k.arg == pname:
+                arg = k.value
+        if arg is None:
+            d = fi.node.args.defaults
+            di = names.index(pname) - (len(names) - len(d))
+            if 0 <= di < len(d):
+                arg = d[di]
+                got = classify(fi, arg)
+            else:
+                return None
+        else:
+            got = classify(cs.caller, arg)
+        if got is None:
+            return None
+        out |= got
+    return out
+
+
 def recursion_findings(ctx, fqs: list[str]) -> list[list[str]]:
     cg = ctx.cg
     edges = {q: set(cg.edges.get(q, ())) for q in fqs}
     taken = _address_taken(ctx)
     for q in fqs:
         for cs in cg.sites.get(q, []):
-            if cs.kind in ("param", "unknown"):
+            if cs.kind == "param":
+                tg = _param_targets(ctx, cg.funcs[q], cs.target, taken)
+                edges[q] |= taken if tg is None else tg
+            elif cs.kind == "unknown":
                 edges[q] |= taken      # an indirect call may reach any address-taken tucan function
     saved = cg.edges
     cg.edges = {**saved, **edges}
